@@ -37,7 +37,12 @@ func val(v int64, den int64) float64 { return float64(v) / float64(den) }
 // padding columns, and `extra` canary elements after the last addressed element.
 func build(a imat, den int64, m, n, lda, extra int) []float64 {
 	if m == 0 || n == 0 {
-		s := make([]float64, extra)
+		// an m x 0 matrix still spans (m-1)*lda elements by the LAPACK length rule
+		ln := extra
+		if m > 0 {
+			ln += (m - 1) * lda
+		}
+		s := make([]float64, ln)
 		for i := range s {
 			s[i] = tailNaN
 		}
